@@ -34,9 +34,29 @@ def make_case(idx):
     prefix = ''.join(k for k, _ in gen.vi_program(R, R.randint(0, 3), kind) if '.' not in k and '@' not in k)
     c, cls = change_cmd(R, kind)
     moves = ''.join(gen.vi_motion(R) for _ in range(R.randint(0, 2)))
-    variant = R.choice(['dot', 'dot', 'ndot', 'ndot', 'macro', 'macro2', 'bigdot'])
-    regfile = None
-    if variant == 'dot':
+    variant = R.choice(['dot', 'dot', 'ndot', 'ndot', 'macro', 'macro2', 'bigdot', 'longmacro', 'junk'])
+    regfile = rfile = None
+    if variant == 'longmacro':
+        # a long register whose last key is '.', repeating a long insert: each fits the 4 KiB input queue, and the
+        # part of the register already consumed is no reason to cut the repeated command short
+        L = R.choice([1000, 2040, 2047, 2050, 2100, 3000, 4000])
+        c = R.choice('iaAIoO') + ''.join(R.choice('abc xyz,.') for _ in range(L)) + '\x1b'
+        cls = 'insert'
+        moves = R.choice(['', 'j', 'k', 'w', '0'])
+        # (a sourced file is one ex command of at most 512 bytes: the register is filled through a pipe instead)
+        regfile = b'rx r cat rfile\n'
+        rfile = (c + moves + '.' + '\n').encode()
+        a = prefix + '@r'
+        b = prefix + c + moves + c + '\n'
+    elif variant == 'junk':
+        # an operator followed by a key that is not a motion does nothing, is recorded as the last command all the same
+        # (neatvi repeats the last command of the repeatable classes, whatever it did), and '.' then repeats exactly it
+        junk = R.choice(['dx', 'cJ\x1b', 'dp', '2dx', '"adP', 'yx', '>x', 'd~', 'dX', 'cD\x1b', 'g~x', 'dJ', '<p'])
+        a = prefix + c + moves + junk + '.'
+        b = prefix + c + moves + junk + junk
+    if variant in ('longmacro', 'junk'):
+        pass
+    elif variant == 'dot':
         a = prefix + c + moves + '.'
         b = prefix + c + moves + c
     elif variant == 'ndot':
@@ -64,12 +84,14 @@ def make_case(idx):
         a = prefix + c + moves + '@r'
         b = prefix + c + moves + c + tail + '\n'
     tail = b'\x1b' + GRABDOT + ('i' + MARK + '\x1b').encode() + REVEAL + b':w! out\n'
-    return {'lines': lines, 'a': a.encode() + tail, 'b': b.encode() + tail, 'c': c, 'cls': cls, 'variant': variant, 'regfile': regfile, 'idx': idx}
+    return {'lines': lines, 'a': a.encode() + tail, 'b': b.encode() + tail, 'c': c, 'cls': cls, 'variant': variant, 'regfile': regfile, 'rfile': rfile, 'idx': idx}
 
 
 def run_one(vi, case, keys):
     files = {'f1': gen.buf_bytes(case['lines'])}
     files['regs'] = b'rs y\n' + DOTSENT + b'\n.\n' + (case['regfile'] or b'')
+    if case.get('rfile'):
+        files['rfile'] = case['rfile']
     envx = {'EXINIT': 'so regs'}
     r, d = common.run_vi(vi, keys, files=files, timeout=90, envx=envx)
     out = common.readf(d, 'out')
@@ -87,10 +109,13 @@ def run_case(args):
         rep = common.san_report(r)
         if rep:
             return (rep, 'sanitizer/crash: %s' % r.err[-400:].decode('latin-1'), wit, case)
-    if ra.timed_out or rb.timed_out or oa is None or ob is None:
+    if ra.timed_out or rb.timed_out or ob is None:
         return ('inconclusive', None, wit, case)
+    if oa is None:
+        # run B reached the final :w, run A (same keys but for the repeat) did not: the repeat left the editor in another state
+        return ('repeat:%s' % case['variant'], 'variant %s, change %r: run A never executed the final :w (run B did)' % (case['variant'], case['c'][:80]), wit, case)
     orig = gen.buf_bytes(case['lines'])
-    if case['variant'] != 'macro':
+    if case['variant'] not in ('macro', 'junk'):
         # the change must have been taken as ONE repeatable command: register '.' (revealed at the end of run B) holds exactly its keys
         parts = ob.split(DOTSENT + b'\n')
         dot = parts[1][:-1] if len(parts) >= 3 else None
@@ -127,7 +152,7 @@ def run(tier, V):
             V.violation(key, what, wit)
     cov = {'evaluations': 2 * n, 'distinct_nontrivial': stats.get('ok', 0), 'pairs': n, 'outcomes': stats, 'nontrivial_by_variant_and_class': classes,
            'rule': ('%d pairs of executions: A = prefix, change c, moves, then "." / "N." / "@r" ; B = the same with the keys of c retyped (N times / the register\'s contents typed).  c ranges over the change commands of the vi grammar '
-                    '(operators x motions, counts, register prefixes, inserts with multi-byte text and editing keys, puts, joins, replace, case, shifts, filters that prompt); N in {2,3,5} and large N around the 4 KiB input queue; registers with several '
+                    '(operators x motions, counts, register prefixes, inserts with multi-byte text and editing keys, puts, joins, replace, case, shifts, filters that prompt); N in {2,3,5} and large N around the 4 KiB input queue; long registers ending in "." after long inserts; an operator plus non-motion key between the change and "."; registers with several '
                     'commands and registers that contain "." themselves.  compared: written file incl. a cursor marker and registers a, b, 1, 2, unnamed put at the end.  non-trivial = the text changed.' % n),
            'samples': [{'variant': c['variant'], 'A': common.show(c['a'], 80), 'B': common.show(c['b'], 80)} for _, _, _, c in res[:4]]}
     assumptions = ['equality of two executions of the same binary is the oracle; both runs share all defects that do not involve repetition',
